@@ -81,7 +81,10 @@ func (r *validationResponseHandler) HandleValidationResponse(
 		// RFC 9111 §4.3.3 Handling Validation Responses (304 Not Modified)
 		// RFC 9111 §4.3.4 Freshening Stored Responses upon Validation
 		updateStoredHeaders(ctx.Stored.Data, resp)
-		if r.rs != nil {
+		// Nothing of an exchange is stored when the request or the 304 itself
+		// says no-store (RFC 9111 §5.2.1.5, §5.2.2.5): the response is served,
+		// the stored copy stays as it was.
+		if r.rs != nil && !ctx.CCReq.NoStore() && !ParseCCResponseDirectives(resp.Header).NoStore() {
 			// The freshened response replaces the stored one and its age restarts
 			// from this exchange; otherwise every later request validates again.
 			_ = r.rs.StoreResponse(
